@@ -36,6 +36,7 @@ func verifyLemma(P *Program, C *Contracts, l *Lemma) *Unit {
 		vars[v.Name] = val.S
 	}
 	nassert := 0
+	ncall := map[string]int{}
 	for _, s := range l.Steps {
 		switch s.Kind {
 		case "assume":
@@ -68,9 +69,10 @@ func verifyLemma(P *Program, C *Contracts, l *Lemma) *Unit {
 				args = append(args, env.eval(a))
 			}
 			cenv := fr.contractEnv(c, fn, args, nil, st, st)
+			ncall[s.Callee]++
 			for k, rq := range c.Requires {
 				f := cenv.eval(rq.Expr).S
-				u.oblige(fmt.Sprintf("lemma:%s#call-requires:%s:%s", l.Name, s.Callee, clauseID(rq, k)), "call-requires", "lemma "+l.Name+" calls "+s.Callee+" within its precondition: "+rq.Text, f, rq)
+				u.oblige(fmt.Sprintf("lemma:%s#call-requires:%s:%d:%s", l.Name, s.Callee, ncall[s.Callee], clauseID(rq, k)), "call-requires", "lemma "+l.Name+" calls "+s.Callee+" within its precondition: "+rq.Text, f, rq)
 				u.assert(f)
 			}
 			// results are the lemma's variables
